@@ -603,6 +603,27 @@ TEXT_EDITS = [
      'silent', ['C01', 'C13'], 'MPS.orthonormalize: np.real(.) for .real and abs(.) for the negation of a negative number (benign)'),
     ('bond_ops.py', 's[sort_idx] = np.cumsum(s[sort_idx])', 's[sort_idx] = s[sort_idx].cumsum()', 'silent', ['C12', 'C13'],
      'retained_bond_indices: method form of cumsum (benign)'),
+    # T5 (weights sum to one) and the must-pass-through rule of the local TDVP steps
+    ('bond_ops.py', 'w = np.linalg.norm(s)', 'w = np.sum(s)', 'violation', ['C12', 'C13'],
+     'retained_bond_indices: normalised by the sum instead of the 2-norm - scale invariant and quadratic, but the weights no longer sum to one'),
+    ('bond_ops.py', 's = (s / w)**2', 's = (s / w)**2 / 2', 'violation', ['C12', 'C13'],
+     'retained_bond_indices: weights halved - tol is no longer a fraction of the total weight'),
+    ('bond_ops.py', 's = (s / w)**2', 's = np.square(s / w)', 'silent', ['C12', 'C13'],
+     'retained_bond_indices: np.square for the second power (benign)'),
+    ('bond_ops.py', "    w = np.linalg.norm(s)\n    if w == 0:\n        return np.array([], dtype=int)\n\n    # normalized squares\n    s = (s / w)**2",
+     "    w = np.sum(s**2)\n    if w == 0:\n        return np.array([], dtype=int)\n\n    # normalized squares\n    s = s**2 / w",
+     'silent', ['C12', 'C13'], 'retained_bond_indices: squares over the sum of squares (benign)'),
+    ('bond_ops.py', "    w = np.linalg.norm(s)\n    if w == 0:\n        return np.array([], dtype=int)\n\n    # normalized squares\n    s = (s / w)**2",
+     "    w = np.sqrt(np.dot(s, s))\n    if w == 0:\n        return np.array([], dtype=int)\n\n    # normalized squares\n    s = (s / w)**2",
+     'silent', ['C12', 'C13'], 'retained_bond_indices: 2-norm written as the root of the dot product (benign)'),
+    ('bond_ops.py', 'return np.where(s > tol)[0]', 'keep = s > tol\n    return np.flatnonzero(keep)', 'silent', ['C12', 'C13'],
+     'retained_bond_indices: flatnonzero of a named mask (benign)'),
+    ('evolution.py', '    Local "zero-site" bond step, based on a Lanczos iteration.\n    """\n',
+     '    Local "zero-site" bond step, based on a Lanczos iteration.\n    """\n    if C.size == 1:\n        return C\n',
+     'violation', ['C08', 'C09'], '_local_bond_step: one-dimensional bond handed back un-evolved (the scalar factor exp(c*dt*E) is lost)'),
+    ('evolution.py', '    Local "zero-site" bond step, based on a Lanczos iteration.\n    """\n',
+     '    Local "zero-site" bond step, based on a Lanczos iteration.\n    """\n    if dt == 0:\n        return C\n',
+     'silent', ['C08', 'C09'], '_local_bond_step: early exit for a vanishing time step (benign)'),
     ('opchain.py', "        for oid in self.oids:\n            op = np.kron(op, opmap[oid])",
      "        for k in range(len(self.oids)):\n            op = np.kron(op, opmap[self.oids[k]])",
      'silent', ['C03', 'C17'], 'OpChain.as_matrix: index loop over the operator ids (benign)'),
